@@ -10,6 +10,16 @@ at the top-level directory.
 */
 #include "slu_mt_ddefs.h"
 
+/*
+ * A supernode can be a candidate for pruning in two columns at the same
+ * time (a column and its pipelined ancestor, worked on by two threads).
+ * The test of ispruned[] and the rewrite of the subscript list must be one
+ * atomic step, otherwise both threads partition the same list concurrently.
+ */
+#if ( MACH==DEC || MACH==PTHREAD )
+static pthread_mutex_t prune_lock = PTHREAD_MUTEX_INITIALIZER;
+#endif
+
 void
 pxgstrf_pruneL(
 	       const int_t  jcol,      /* current column */
@@ -72,6 +82,12 @@ pxgstrf_pruneL(
 	 */
 	do_prune = FALSE;
 	if ( isupno != jsupno ) {
+#if ( MACH==DEC || MACH==PTHREAD )
+	    pthread_mutex_lock( &prune_lock );
+#elif ( MACH==OPENMP )
+#pragma omp critical ( PRUNE_LOCK )
+#endif
+	  { /* ---- START CRITICAL SECTION ---- */
 	    if ( ! ispruned[irep] ) {
 		kmin = SINGLETON( isupno ) ? xlsub_end[irep] : xlsub[irep];
 		kmax = xprune[irep] - 1;
@@ -122,6 +138,10 @@ if (irep >= LOCOL && irep >= HICOL && jcol >= LOCOL && jcol <= HICOL)
 	   irep, jcol, xlsub[irep], kmin);
 #endif
 	    } /* if do_prune */
+	  } /* ---- END CRITICAL SECTION ---- */
+#if ( MACH==DEC || MACH==PTHREAD )
+	    pthread_mutex_unlock( &prune_lock );
+#endif
 
 	} /* if */
 
